@@ -20,6 +20,8 @@ EXPLANATION = (
     "settings are NOT decided."
     " R3: no accessor lets the iteration order of the mod collection decide between mutually exclusive mod families (DT/NC vs HT/DC, HR vs EZ): a find/find_map over the mod list whose closure answers for kinds of both sides is reported, earlier dominating searches and filter predicates taken into account; rosu-mods' legacy_clock_rate (such a search) is not used."
     " R4: every attribute-builder chain that a calculator drives to build()/hit_windows() is configured through .difficulty(..) — the one override-aware funnel — and no individual setting setter precedes it (private helpers read through)."
+    " R5: the representation of GameMods (which of Lazer / Intermode / Legacy a value is) is inspected only inside model::mods — by the accessors R1 summarises and the derived impls; "
+    "a calculator that matches on the variant itself (a cache filled by a `Legacy` fast path, say) answers per spelling outside the rule that compares the spellings."
 )
 
 GM = 'model::mods::GameMods'
@@ -293,6 +295,7 @@ def run(ctx):
         has_ov = any(as_param_path(x) == (1, ('clock_rate',)) or (as_param_path(x) or (0, ()))[1][:1] == ('clock_rate',) for x in prov.walk(rv, limit=300) if x[0] in ('field', 'variant'))
         ctx.require(has_fb and has_ov, 'C08-R2', 'get_clock_rate', 'get_clock_rate = explicit override, else self.mods.clock_rate()', g.where(),
                     bad='Difficulty::get_clock_rate no longer combines the explicit override with the mods\' clock rate')
+    r5_representation_private(ctx, F)
     ctx.assume('rosu-mods 0.3.1: contains / contains_intermode / legacy_clock_rate agree for legacy-representable mods')
     ctx.not_decided('numerical equality of results across representations; lazer per-mod settings (speed change values, DifficultyAdjust values)')
 
@@ -572,3 +575,31 @@ def r3_iteration_order(ctx, F):
                       'DoubleTime) while GameModsLegacy::clock_rate prefers DoubleTime: DT+HT given as bits and as intermode mods get different clock rates' % fn.path, fn.where(t.get('ln')))
     if not callers:
         ctx.ok('C08-R3', 'legacy_clock_rate', 'GameModsIntermode::legacy_clock_rate (iteration-order precedence) is not used')
+
+
+# ---- R5: who may look at the representation (seed C08-7: a mod-flag cache with a `GameMods::Legacy` fast path in the osu! performance calculator)
+def r5_representation_private(ctx, F):
+    n = 0
+    for fn in F.fns:
+        locs = (fn.j.get('mir') or {}).get('locals') or []
+        sites = []
+        for bi, b in enumerate(fn.blocks):
+            for s_ in b['s']:
+                if s_.get('k') == 'assign' and s_['rv']['k'] == 'discr':
+                    p_ = s_['rv']['p']
+                    ty = locs[p_['l']] if p_['l'] < len(locs) else {}
+                    if (ty.get('to_adt') or ty.get('adt')) == GM or any(isinstance(e, dict) and e.get('adt') == GM for e in p_.get('proj', [])):
+                        sites.append(s_.get('ln'))
+        if not sites:
+            continue
+        inside = fn.path.startswith('model::mods::') or (fn.self_adt == GM) or ('<' + GM + ' as ') in fn.path
+        if inside:
+            n += 1
+            continue
+        ctx.saw(fn)
+        ctx.violation('C08-R5', 'inspects:' + fn.path, '%s matches on the representation of GameMods (Lazer / Intermode / Legacy) itself: outside model::mods a value must be asked '
+                      'through the accessors, which are compared across the three spellings (C08-R1); a per-representation branch here can answer differently for the same mods' % fn.path,
+                      fn.where(sites[0]))
+    ctx.floor('C08-R5', n, 20, 'functions of model::mods that switch on the GameMods representation (28 today)')
+    if n:
+        ctx.ok('C08-R5', 'representation-private', 'the GameMods variant is inspected by %d functions, all inside model::mods' % n)
